@@ -76,6 +76,18 @@ func (p *Program) verifyFunction(fn *ssa.Function, con *Contract) (res *FuncResu
 	for _, r := range con.Requires {
 		vc.assert(env0.evalBool(r.E))
 	}
+	// regions of known findings are stated over the entry state of this function (parameters, lets, ghosts)
+	for i := range p.findings {
+		fd := &p.findings[i]
+		if fd.Status != "known" || fd.Region == "" || !strings.HasPrefix(fd.Obligation, name+"#") {
+			continue
+		}
+		re, err := ParseSpec(fd.Region)
+		if err != nil {
+			unsup("known_findings.json: region of %s does not parse: %v", fd.Obligation, err)
+		}
+		vc.regions[fd.Obligation] = env0.evalBool(re)
+	}
 	// vacuity: the precondition must be satisfiable
 	vo := &Obligation{Name: name + "#vacuity:requires", Kind: "vacuity", Fn: name, Goal: "false", NAssert: len(vc.asserts), Pos: p.fset.Position(fn.Pos()), Desc: "precondition is satisfiable", ExpectSat: true, vc: vc, Props: con.Props}
 	vc.obligs = append(vc.obligs, vo)
